@@ -4,6 +4,7 @@ package main
 // executors (one solver each), aggregation of path results.
 
 import (
+	"os"
 	"fmt"
 	"sort"
 	"strings"
@@ -379,6 +380,10 @@ func runHarness(ld *Loaded, cfg Config, pkg *ssa.Package, fn *ssa.Function, work
 					}
 				case "fatal", "exit":
 					uniq(&hr.Truncated, res.Outcome+": "+res.Reason)
+				case "infeasible":
+					if os.Getenv("SYMGO_DEBUG") != "" {
+						fmt.Fprintf(os.Stderr, "infeasible: %s [%s]\n", res.Reason, decString(e.taken))
+					}
 				}
 				if len(hr.Samples) < 6 && (res.Outcome == "returned" || res.Outcome == "panicked") && (hr.Paths%7 == 1 || len(hr.Samples) < 2) {
 					ps := PathSample{Outcome: res.Outcome, Decisions: decString(e.taken), Inputs: res.Inputs}
